@@ -231,7 +231,8 @@ def expect_walk(bundles, keys, kind):
                 finals.append([b'MissingValue', k[0], b'none'])
             else:
                 finals.append([b'MissingMessage', k[0], b'none'])
-    visited = 0 if not bundles else max([1] + depth)
+    # an empty batch returns before the loop: no bundle is asked for, no error is pushed (D18, fixed)
+    visited = 0 if (not bundles or not keys) else max([1] + depth)
     errors = []
     for j in range(visited):
         b = bundles[j]
@@ -314,13 +315,14 @@ MANIFEST = {
             'bundle by bundle, the carried errors then MissingMessage/MissingValue{locale}, at the answering bundle the carried '
             'errors then Resolver{..} iff non-empty, else the locale-less closing entry; format_values / format_messages give per '
             'index exactly the single-request answer, their error list is the locale-major merge of the per-key lists and they '
-            'visit max_i depth_i (>= 1) bundles; the iterator and stream variants are one function of the pulled sequence and the '
+            'visit exactly max_i depth_i bundles (0 and no error at all for an empty key list, >= 1 otherwise); the iterator and stream variants are one function of the pulled sequence and the '
             '*_sync API on an async-mode set returns SyncRequestInAsyncMode without touching errors or the generator. The model '
             'is tied to bundles.rs by running the extracted model and the real Localization/Bundles API on a scripted generator '
             '(availability matrices exhaustively, random larger cases, both modes, all six API methods, repeated requests).',
     'note': 'Trusted: Coq kernel; extraction; the cache (C17) abstracted as "the sequence, pulled lazily once"; format_pattern abstract. '
             'Hypothesis: every yielded bundle has a non-empty locale list — otherwise bundles.rs panics on locales[0] (reproduced). '
-            'Observation D18 (a batch request with an empty key list still pulls the first bundle) is part of C16_batch_errs (>= 1).',
+            'D18 (an empty batch used to pull the first bundle) is fixed in /repo: C16_batch_errs / C16_messages state that an empty '
+            'key list pulls nothing and pushes nothing; reverting the fix is caught by the oracle (corpus/C16/boundary.case).',
     'technique': 'Rocq proof (induction over the pulled sequence, cell invariant for the batch loops) + differential correspondence '
                  'check + independent Python implementation of the statement as oracle',
     'design_ref': 'DESIGN.md §4 C16',
